@@ -107,6 +107,13 @@ func VxC03FileWrite() {
 		want = 2
 	}
 	vx.Assert("listed-position-is-highest-complete-file", max == want)
+	// restart: a new client on the same directory retries the upload (what the
+	// replica does for every TXID above the listed position); whatever the kill
+	// left behind, the retry goes through without manual intervention
+	c2 := NewReplicaClient(root)
+	_, rerr := c2.WriteLTXFile(context.Background(), 0, 2, 2, bytes.NewReader(data))
+	vx.Assert("retry-after-kill-succeeds", rerr == nil && vx.FSComplete(final) && bytes.Equal(vx.FSReadFile(final), data))
+	vx.Assert("retry-leaves-no-temp-file", !vx.FSExists(final+".tmp"))
 }
 
 // VxC15FileTimestamp: a file written through the backend is listed with
